@@ -3,6 +3,7 @@
  1. imports (z3 from the tooling venv, the repo's modules from /repo)
  2. model validation: the repo's test-suite on the environment model + differential op sequences vs the real OS
  3. vacuity twins: a check whose obligation is replaced by False must report a VIOLATION that replays on the real OS
+ 4. solver diff: a sample of the discharged validity queries (SMT-LIB2) is re-decided by cvc5; verdicts must agree
 """
 import os
 import subprocess
@@ -27,6 +28,17 @@ for prop, chk, fams in (('C13', 'C13.input', 'input'), ('C18', 'C18.symmetric', 
     print('twin %-22s -> exit %d, violation reported and replayed on the real OS: %s' % (chk, p.returncode, hit))
     ok = ok and hit and p.returncode == 1
 import shutil
+import tempfile
+# 4. a sample of the validity queries is re-decided by a second solver (cvc5): the verdicts must agree
+dump = tempfile.mkdtemp(prefix='verif_smt_')
+for prop, fams, every in (('C13', 'input,integrity,readback', '3'), ('C06', 'all-vary', '150'), ('C18', 'triple', '40')):
+    env = dict(os.environ, VERIF_DUMP_SMT=dump, VERIF_DUMP_EVERY=every, VERIF_FAMILIES=fams, VERIF_BUDGET_S='25',
+               VERIF_EVIDENCE_DIR='/tmp/verif_selftest_evidence')
+    subprocess.run([sys.executable, os.path.join(V, 'check.py'), prop, '--tier', 'quick'], capture_output=True, text=True, env=env)
+r = subprocess.run([sys.executable, os.path.join(V, 'tools', 'diff_solvers.py'), dump], capture_output=True, text=True)
+print(r.stdout.strip().splitlines()[-1] if r.stdout.strip() else 'solver diff produced no output')
+ok = ok and r.returncode == 0
+shutil.rmtree(dump, ignore_errors=True)
 shutil.rmtree('/tmp/verif_selftest_evidence', ignore_errors=True)
 print('selftest ok' if ok else 'selftest FAILED')
 sys.exit(0 if ok else 3)
